@@ -703,6 +703,9 @@ func (rn *c11Runner) runScenario(sc *c11Scenario) (corr, impl, oname string, tag
 	}
 	sb.WriteString(" S")
 	for _, c := range resp.Chosen {
+		if c < 0 {
+			continue // a turn the client spent between two calls: no operation, nothing happens in the model
+		}
 		fmt.Fprintf(&sb, " %d", c)
 	}
 	nSetup := len(reqs)
@@ -1032,5 +1035,5 @@ func runC11(f *common.Flags, res *common.Result, m *mdl) {
 	if real != "" && f.Replay == "" {
 		rn.stress(real, procs, routines, millis)
 	}
-	res.Rule = fmt.Sprintf("(i) a systematic family (two clients on one id: every pair of a Put with a lookup or another Put, the id stored beforehand / its output stored for another id / nothing stored; one client runs to completion at each of the first 19 operation boundaries of the other, both ways), then %d scenarios of 2-4 clients x 1-3 calls (Put/Get/GetBytes/GetFile over 1-3 ids, per id one content (re-stores) or several, some ids stored beforehand) with a schedule drawn from the seed, replayed on the real code under the os shim's cooperative scheduler (one file operation per turn) and on the interleaved semantics of the model: the sequence of (client, operation), every call's result and every file's final content are compared; direct oracles: returned bytes were stored for that id by some Put, no miss for ids only re-stored identically, every stored id readable at the end, no failing Put, no panic; (ii) %d processes x %d goroutines for %d ms on one directory with self-describing payloads and the same oracles; a scenario is non-trivial when it contains at least two Puts; every replayed schedule must leave the process with the descriptors it had; (iii) %s", nSched, procs, routines, millis, repeats)
+	res.Rule = fmt.Sprintf("(i) a systematic family (two clients on one id: every pair of a Put with a lookup or another Put, the id stored beforehand / its output stored for another id / nothing stored; one client runs to completion at each of the first 19 operation boundaries of the other, both ways), then %d scenarios of 2-4 clients x 1-3 calls (Put/Get/GetBytes/GetFile over 1-3 ids, per id one content (re-stores) or several, some ids stored beforehand) with a schedule drawn from the seed, replayed on the real code under the os shim's cooperative scheduler (one file operation per turn) and on the interleaved semantics of the model: the sequence of (client, operation), every call's result and every file's final content are compared; direct oracles: returned bytes were stored for that id by some Put, no miss for ids only re-stored identically, every stored id readable at the end, no failing Put, no panic; (ii) %d processes x %d goroutines for %d ms on one directory with self-describing payloads and the same oracles; a scenario is non-trivial when it contains at least two Puts; every replayed schedule must leave the process with the descriptors it had; (iii) %s; dimensions added (CONVENTIONS addendum 4, items 1 and 2): the clients of a schedule use one *cache.Cache each, ONE shared by all (goroutines of a program), or two shared by some (drawn per scenario; a systematic family of two writers of different, not yet stored outputs on one handle and on two, one running to completion at every operation boundary of the other); Puts whose source is NOT at its start -- at an arbitrary offset (putat) or the very reader the client's previous Put was given, left at its end (putagain) -- in the systematic families (new id and re-store of identical content, a reader of that id at every boundary), in the drawn scenarios and in the stress; every slice GetBytes returns and the data given to PutBytes are overwritten in place by the caller once examined, in the replayed schedules and in the stress: later lookups by anyone must not change; direct oracle added: a successful Put returns the SHA-256 and the length of the data it was given", nSched, procs, routines, millis, repeats)
 }
